@@ -35,6 +35,7 @@ KERNELS = {
     "C38": ["k_entry_points", "k_for_path", "k_value_text"],
     "C34": ["k_expose_tables", "k_meta_call"],
     "C22": ["k_placeholder_algebra"],
+    "C40": ["k_cli"],
     "C06": ["k_unique_id", "k_random"],
     "C11": ["k_plus_minus_units", "k_numeric_cmp", "k_unitset_simplify"],
     "C13": ["k_map_merge", "k_map_find_value", "k_map_literal", "k_map_set_inner", "k_deep_merge"],
@@ -715,6 +716,31 @@ STRUCTURAL_PROBES["k_placeholder_algebra"] = [
     ("[exact]a:not(:not(%p), b) { f: g }", ""), ("[exact]a:not(:is(:not(%p))) { f: g }", ""), ("[exact]> a { b: c }", "> a { b: c; }"),
     ("[exact]a { > b { c: d } }", "a > b { c: d; }"),
 ]
+_C40_A = "a { b: (1/3); c: 10px * 1.23456789 }\n"
+_C40_B = "@use 'lib'; d { e: lib.$v }\n"
+_C40_PROBES = []
+for _st, _pr in (("expanded", 5), ("compressed", 5), ("expanded", 0), ("compressed", 12), ("expanded", 10)):
+    _fmt = (["--style", _st] if _st != "expanded" else []) + (["--precision", str(_pr)] if _pr != 5 else [])
+    _C40_PROBES += [
+        (("rel", "cli", {"files": {"a.scss": _C40_A}, "argv": _fmt + ["a.scss"], "equals_api": ["a.scss"], "format": (_st, _pr)}), None),
+        (("rel", "cli", {"files": {"a.scss": _C40_A, "x/b.scss": _C40_B, "x/_lib.scss": "$v: (2/3);"}, "argv": _fmt + ["a.scss", "x/b.scss", "a.scss"],
+                         "equals_api": ["a.scss", "x/b.scss", "a.scss"], "format": (_st, _pr)}), None),
+    ]
+_C40_PROBES += [
+    (("rel", "cli", {"files": {"a.scss": _C40_A}, "argv": ["-t", "compressed", "a.scss"], "equals_api": ["a.scss"], "format": ("compressed", 5)}), None),
+    (("rel", "cli", {"files": {"a.scss": "a { b: "}, "argv": ["a.scss"], "fails": True}), None),
+    (("rel", "cli", {"files": {"a.scss": "a { @error \"no\" }"}, "argv": ["a.scss"], "fails": True}), None),
+    (("rel", "cli", {"files": {}, "argv": ["missing.scss"], "fails": True}), None),
+    (("rel", "cli", {"files": {"a.scss": _C40_A, "bad.scss": "a { b: "}, "argv": ["a.scss", "bad.scss", "a.scss"], "fails": True, "stdout_is_api": ["a.scss"]}), None),
+    # --load-path: found there when the input's own directory has nothing ...
+    (("rel", "cli", {"files": {"x/b.scss": _C40_B, "inc/_lib.scss": "$v: 7;", "y/b.scss": _C40_B, "y/_lib.scss": "$v: 7;"}, "argv": ["-I", "{dir}/inc", "x/b.scss"], "same_as": ["y/b.scss"]}), None),
+    (("rel", "cli", {"files": {"x/b.scss": _C40_B, "inc/_lib.scss": "$v: 7;", "y/b.scss": _C40_B, "y/_lib.scss": "$v: 7;"}, "argv": ["--load-path", "inc", "x/b.scss"], "same_as": ["y/b.scss"]}), None),
+    # ... and the input file's own directory wins over --load-path
+    (("rel", "cli", {"files": {"x/b.scss": _C40_B, "x/_lib.scss": "$v: own;", "inc/_lib.scss": "$v: other;", "y/b.scss": _C40_B, "y/_lib.scss": "$v: own;"},
+                     "argv": ["-I", "inc", "x/b.scss"], "same_as": ["y/b.scss"]}), None),
+    (("rel", "cli", {"files": {"x/b.scss": _C40_B}, "argv": ["-I", "inc", "x/b.scss"], "fails": True}), None),
+]
+STRUCTURAL_PROBES["k_cli"] = _C40_PROBES
 STRUCTURAL_PROBES["k_do_find_file"] = STRUCTURAL_PROBES["k_find_file"] + [((_FLAKY, "[fail-lookup %d]a.scss" % k), "<error>") for k in range(6)] + [
     ((_FLAKY, "[fail-lookup 99]a.scss"), "a { b: 1; c: 2; }")]
 STRUCTURAL_PROBES["k_fsloader_find"] = STRUCTURAL_PROBES["k_find_file"]
@@ -812,6 +838,42 @@ def relation_probe(src):
             texts = [(r["message"] if r["outcome"] == "ok" else "<%s>" % r["outcome"]) for r in outs]
             if len(set(texts)) != 1:
                 return {"relation": "compile_scss == transform == compile_scss_path [%s, precision %s] on %r" % (style, prec, doc), "profile": prof, "got": texts}
+        elif kind == "cli":                    # the real rsass binary against the library (and against itself)
+            spec = src[2]
+            import shutil
+            import tempfile
+            d = tempfile.mkdtemp(prefix="kaj-rsass-c40-")
+            try:
+                for name, text in spec["files"].items():
+                    os.makedirs(os.path.dirname(os.path.join(d, name)) or d, exist_ok=True)
+                    with open(os.path.join(d, name), "w") as f:
+                        f.write(text)
+                r = native.run_cli([a.replace("{dir}", d) for a in spec["argv"]], d, prof)
+                bad = None
+                if "equals_api" in spec:
+                    style, prec = spec.get("format", ("expanded", 5))
+                    want = ""
+                    for entry in spec["equals_api"]:
+                        o = native.run_api("path", style, prec, os.path.join(d, entry), prof)
+                        want += o["message"] if o["outcome"] == "ok" else "<%s>" % o["outcome"]
+                    if r["code"] != 0 or r["stdout"] != want:
+                        bad = [r["code"], r["stdout"], want]
+                if spec.get("fails"):
+                    if r["code"] in (0, None) or not r["stderr"].startswith("Error: "):
+                        bad = [r["code"], r["stderr"][:200]]
+                    if "stdout_is_api" in spec:
+                        style, prec = spec.get("format", ("expanded", 5))
+                        want = "".join(native.run_api("path", style, prec, os.path.join(d, e), prof)["message"] for e in spec["stdout_is_api"])
+                        if r["stdout"] != want:
+                            bad = [r["code"], r["stdout"], want]
+                if "same_as" in spec:
+                    r2 = native.run_cli([a.replace("{dir}", d) for a in spec["same_as"]], d, prof)
+                    if (r["code"], r["stdout"]) != (r2["code"], r2["stdout"]) or r["code"] != 0:
+                        bad = [r["code"], r["stdout"], r2["code"], r2["stdout"]]
+            finally:
+                shutil.rmtree(d, ignore_errors=True)
+            if bad:
+                return {"relation": "rsass %s" % " ".join(spec["argv"]), "profile": prof, "got": bad}
     return None
 
 
